@@ -40,7 +40,8 @@ type propCfg struct {
 	RaceQ    int // plans under the race build
 	RaceT    int
 	Chunk    int
-	PerProc  bool // one plan per process
+	PerProc  bool           // one plan per process
+	Extra    map[string]int // extra build variants ("pie", "strip") -> plans in quick; thorough x20
 	Rule     string
 	Assume   []string
 }
@@ -124,6 +125,33 @@ func goEnv() []string {
 }
 
 // build compiles simnode from the current /repo tree.
+func buildVariant(variant, dst string) error {
+	switch variant {
+	case "plain":
+		return build(false, dst)
+	case "race":
+		return build(true, dst)
+	}
+	os.MkdirAll(filepath.Dir(dst), 0755)
+	args := []string{"build", "-tags", "verif", "-gcflags=all=-l", "-o", dst}
+	switch variant {
+	case "pie":
+		args = append(args, "-buildmode=pie")
+	case "strip":
+		args = append(args, "-ldflags=-s")
+	}
+	args = append(args, "./cmd/simnode")
+	cmd := exec.Command("go", args...)
+	cmd.Dir = simDir
+	cmd.Env = goEnv()
+	var buf bytes.Buffer
+	cmd.Stdout, cmd.Stderr = &buf, &buf
+	if err := cmd.Run(); err != nil {
+		return fmt.Errorf("go %s: %v\n%s", strings.Join(args, " "), err, buf.String())
+	}
+	return nil
+}
+
 func build(race bool, dst string) error {
 	os.MkdirAll(filepath.Dir(dst), 0755)
 	// go.sum of the harness module = /repo's go.sum + porcupine (committed in sim/go.sum)
@@ -734,6 +762,19 @@ func main() {
 			}
 		}
 	}
+	var extraVariants []string
+	for v := range cfg.Extra {
+		extraVariants = append(extraVariants, v)
+	}
+	sort.Strings(extraVariants)
+	for _, v := range extraVariants {
+		r.bins[v] = filepath.Join(scratch, "simnode-"+v)
+		if err := buildVariant(v, r.bins[v]); err != nil {
+			// an alternative link mode that does not link offline is dropped with a note, not an error
+			fmt.Printf("vcheck: build variant %s unavailable, skipped: %v\n", v, err)
+			delete(r.bins, v)
+		}
+	}
 	known := loadKnown()
 	var childKnown []string
 	for _, k := range known {
@@ -771,6 +812,22 @@ func main() {
 		}
 		// race variant explores its own seed block (offset) so that both builds add coverage
 		jobs = append(jobs, job{base + 500000000 + uint64(s), n, "race"})
+	}
+	for vi, v := range extraVariants {
+		if _, ok := r.bins[v]; !ok {
+			continue
+		}
+		n := cfg.Extra[v]
+		if tier == "thorough" {
+			n *= 20
+		}
+		for s := 0; s < n; s += chunk {
+			c := chunk
+			if s+c > n {
+				c = n - s
+			}
+			jobs = append(jobs, job{base + 700000000 + uint64(vi)*50000000 + uint64(s), c, v})
+		}
 	}
 	jc := make(chan job)
 	var wg sync.WaitGroup
